@@ -1,7 +1,70 @@
 package main
 
+import (
+	"encoding/json"
+	"fmt"
+	"os"
+	"strings"
+)
+
 // tryReplay turns a solver model into a run of the real function (go test -overlay). Returns whether the
 // violation was reproduced on the real code, a note, and the command to re-run it.
 func tryReplay(g *Global, prop string, ob *Obligation, model string, dir string) (bool, string, string) {
 	return false, "replay generator not available for this function shape; the solver model is recorded above", ""
+}
+
+// cmdReplay re-decides the obligation named in a replay file against /repo's current working tree: exit 1 (and a
+// VIOLATION line) if it still fails, exit 0 if it is discharged now.
+func cmdReplay(args []string) {
+	if len(args) != 1 {
+		fmt.Fprintln(os.Stderr, "usage: govc replay <replay-file.json>")
+		os.Exit(2)
+	}
+	data, err := os.ReadFile(args[0])
+	if err != nil {
+		fmt.Fprintln(os.Stderr, err)
+		os.Exit(2)
+	}
+	var rf replayFile
+	if err := json.Unmarshal(data, &rf); err != nil {
+		fmt.Fprintln(os.Stderr, err)
+		os.Exit(2)
+	}
+	if r := os.Getenv("GOVC_REPO"); r != "" {
+		repoDir = r
+	}
+	g := mustLoad()
+	var res *FuncResult
+	switch {
+	case strings.HasPrefix(rf.Function, "lemma."):
+		res = g.verifyLemma(strings.TrimPrefix(rf.Function, "lemma."))
+	case strings.HasPrefix(rf.Function, "stable."):
+		res = g.verifyStable(strings.TrimPrefix(rf.Function, "stable."))
+	default:
+		res = g.verifyFunc(rf.Function)
+	}
+	if res.Err != nil || res.Tr == nil {
+		fmt.Printf("obligation %s: verification conditions cannot be generated: %v\n", rf.Obligation, res.Err)
+		fmt.Printf("VIOLATION property=%s replay=%s no-failing-input-found\n", rf.Property, args[0])
+		os.Exit(1)
+	}
+	var jobs []job
+	for _, ob := range res.Tr.sc.obls {
+		if ob.ID == rf.Obligation {
+			jobs = append(jobs, job{res.Tr.sc, ob})
+		}
+	}
+	if len(jobs) == 0 {
+		fmt.Printf("obligation %s is no longer generated for %s (the code or contract changed shape); re-run the check\n", rf.Obligation, rf.Function)
+		os.Exit(1)
+	}
+	dischargeAll(jobs, 150, 4, true)
+	ob := jobs[0].ob
+	fmt.Printf("obligation %s [%s] at %s: %s (%s)\n  %s\n", ob.ID, ob.Kind, ob.Pos, ob.Status, ob.Output, ob.Desc)
+	if ob.Status == "unsat" {
+		fmt.Println("discharged on the current tree")
+		return
+	}
+	fmt.Printf("VIOLATION property=%s replay=%s no-failing-input-found\n", rf.Property, args[0])
+	os.Exit(1)
 }
